@@ -26,6 +26,7 @@ type GMethod struct {
 	Ret         []string // documented names or a special (Self, Unify, ...)
 	RetNilable  bool     // "?T" / [T, NilClass]
 	RetArrayOf  string   // "[T]" / TArray
+	RetNested   bool     // with RetArrayOf: an array of arrays, "[[T]]" / "[TArray]"
 	BlockParams []string
 	Doc         string
 }
@@ -309,6 +310,10 @@ func (m *GMethod) toJSON(nt Notation, r *RNG) map[string]any {
 		}
 	}
 	switch {
+	case m.RetArrayOf != "" && m.RetNested && nt.Compact:
+		ret["type"] = "[[" + m.RetArrayOf + "]]"
+	case m.RetArrayOf != "" && m.RetNested:
+		ret["type"] = []string{"[" + m.RetArrayOf + "Array]"}
 	case m.RetArrayOf != "" && nt.Compact:
 		ret["type"] = "[" + m.RetArrayOf + "]"
 	case m.RetArrayOf != "":
